@@ -10,6 +10,7 @@ use curve25519_dalek::{
     traits::{Identity, VartimePrecomputedMultiscalarMul},
 };
 use digest::{ExtendableOutput, Update, XofReader};
+use rand_core::RngCore;
 use serde_json::json;
 use tari_bulletproofs_plus::{
     generators::pedersen_gens::ExtensionDegree, range_parameters::RangeParameters, ristretto,
@@ -21,6 +22,85 @@ use crate::{
     gx::Gx,
     refbp,
 };
+
+/// (bits, capacity) pairs with more than 256 parties: the party index no longer fits one byte of the chain label
+fn wide(thorough: bool) -> Vec<(usize, usize)> {
+    if thorough {
+        vec![(1, 512), (2, 512), (1, 1024), (4, 512), (1, 2048)]
+    } else {
+        vec![(1, 512), (2, 512)]
+    }
+}
+
+fn configs(thorough: bool) -> Vec<(usize, usize, usize)> {
+    let mut v = vec![];
+    for (bi, &n) in BITS.iter().enumerate() {
+        for (ci, &cap) in caps(thorough).iter().enumerate() {
+            v.push((n, cap, 1 + (bi + ci) % 6));
+        }
+    }
+    for (k, (n, cap)) in wide(thorough).into_iter().enumerate() {
+        v.push((n, cap, 1 + k % 6));
+    }
+    v
+}
+
+/// Positional access on the generator iterators (`nth`, `skip`, `step_by`, `size_hint`, `last`, `count`, after a
+/// partial walk too) must agree with the collected vectors
+fn iter_access<P: Gx + PartialEq + Clone + tari_bulletproofs_plus::traits::Precomputable + tari_bulletproofs_plus::traits::FromUniformBytes>(
+    prm: &RangeParameters<P>,
+    gv: &[P],
+    hv: &[P],
+    rng: &mut rand_chacha::ChaCha12Rng,
+    rep: &mut Report,
+) -> Option<String> {
+    iter_access_one("gi_base_iter", || prm.gi_base_iter(), gv, rng, rep).or_else(|| iter_access_one("hi_base_iter", || prm.hi_base_iter(), hv, rng, rep))
+}
+
+fn iter_access_one<'a, P: PartialEq + 'a, I: Iterator<Item = &'a P>>(nm: &str, mk: impl Fn() -> I, v: &'a [P], rng: &mut rand_chacha::ChaCha12Rng, rep: &mut Report) -> Option<String> {
+    let len = v.len();
+    {
+        if mk().size_hint() != (len, Some(len)) {
+            return Some(format!("{nm}().size_hint() is {:?} for {len} generators", mk().size_hint()));
+        }
+        if mk().count() != len || mk().last() != v.last() {
+            return Some(format!("{nm}(): count()/last() disagree with the collected vector"));
+        }
+        let mut pairs: Vec<(usize, usize)> = vec![(0, 0), (0, len - 1), (0, len), (len - 1, 0), (len / 2, 0)];
+        for _ in 0..12 {
+            let a = rng.next_u64() as usize % (len + 1);
+            let b = rng.next_u64() as usize % (len + 2 - a);
+            pairs.push((a, b));
+        }
+        for (start, k) in pairs {
+            let mut it = mk();
+            for _ in 0..start {
+                it.next();
+            }
+            rep.count("iterator_positional_reads", 1);
+            if it.size_hint() != (len - start.min(len), Some(len - start.min(len))) {
+                return Some(format!("{nm}(): after {start} steps size_hint() is {:?}, {} generators remain", it.size_hint(), len - start.min(len)));
+            }
+            let got = it.nth(k);
+            if got != v.get(start + k) {
+                return Some(format!("{nm}(): after {start} steps nth({k}) is not generator {}", start + k));
+            }
+            if got.is_some() && it.next() != v.get(start + k + 1) {
+                return Some(format!("{nm}(): the element after nth({k}) from {start} is not generator {}", start + k + 1));
+            }
+            if mk().skip(start).nth(k) != v.get(start + k) {
+                return Some(format!("{nm}().skip({start}).nth({k}) is not generator {}", start + k));
+            }
+        }
+        for step in [1usize, 2, 3, len.max(2) - 1, len, len + 1] {
+            rep.count("iterator_positional_reads", 1);
+            if !mk().step_by(step).eq(v.iter().step_by(step)) {
+                return Some(format!("{nm}().step_by({step}) differs from stepping through the collected vector"));
+            }
+        }
+    }
+    None
+}
 
 fn caps(thorough: bool) -> Vec<usize> {
     if thorough {
@@ -83,13 +163,12 @@ fn ristretto_leg(ctx: &Ctx, rep: &mut Report) {
         }
     }
     // vector generators: bits x capacity (x a rotating degree)
-    for (bi, &n) in BITS.iter().enumerate() {
-        for (ci, &cap) in caps(ctx.thorough()).iter().enumerate() {
+    {
+        for (n, cap, ext) in configs(ctx.thorough()) {
             id += 1;
             if !ctx.mine(id) {
                 continue;
             }
-            let ext = 1 + (bi + ci) % 6;
             let d = json!({"bits": n, "capacity": cap, "ext": ext});
             let mut rng = ctx.rng("c11-ris", id as u64);
             let prm = RangeParameters::init(n, cap, <RistrettoPoint as Gx>::pedersen(ext)).expect("params");
@@ -105,10 +184,10 @@ fn ristretto_leg(ctx: &Ctx, rep: &mut Report) {
             let (rg, rh) = refbp::ref_vector_gens::<RistrettoPoint>(n, cap);
             rep.count("points_compared_with_derivation", 2 * (n * cap) as u64);
             if let Some(i) = (0..n * cap).find(|i| gv[*i] != rg[*i]) {
-                rep.violation(&format!("C11 G-chain-derivation party{}0", if i / n == 0 { "=" } else { ">" }), &format!("G generator (party {}, index {}) is not the documented SHAKE256 derivation", i / n, i % n), rp(ctx, id, "ris", d.clone()));
+                rep.violation(&format!("C11 G-chain-derivation party{}", if i / n == 0 { "=0" } else if i / n < 256 { ">0" } else { ">255" }), &format!("G generator (party {}, index {}) is not the documented SHAKE256 derivation", i / n, i % n), rp(ctx, id, "ris", d.clone()));
             }
             if let Some(i) = (0..n * cap).find(|i| hv[*i] != rh[*i]) {
-                rep.violation(&format!("C11 H-chain-derivation party{}0", if i / n == 0 { "=" } else { ">" }), &format!("H generator (party {}, index {}) is not the documented SHAKE256 derivation", i / n, i % n), rp(ctx, id, "ris", d.clone()));
+                rep.violation(&format!("C11 H-chain-derivation party{}", if i / n == 0 { "=0" } else if i / n < 256 { ">0" } else { ">255" }), &format!("H generator (party {}, index {}) is not the documented SHAKE256 derivation", i / n, i % n), rp(ctx, id, "ris", d.clone()));
             }
             // pairwise distinct, none the identity (all 2nc + d + 1 encodings)
             let mut seen: HashSet<[u8; 32]> = HashSet::new();
@@ -125,6 +204,9 @@ fn ristretto_leg(ctx: &Ctx, rep: &mut Report) {
                     rep.violation("C11 duplicate-generator", &format!("{name} equals another generator of the same parameter set"), rp(ctx, id, "ris", d.clone()));
                     break;
                 }
+            }
+            if let Some(msg) = iter_access(&prm, &gv, &hv, &mut rng, rep) {
+                rep.violation("C11 iterator-access", &msg, rp(ctx, id, "ris", d.clone()));
             }
             // accessors for compressed forms
             if prm.h_base_compressed() != prm.h_base().compress() || prm.g_bases_compressed().iter().zip(prm.g_bases()).any(|(c, p)| *c != p.compress()) {
@@ -171,14 +253,14 @@ fn ristretto_leg(ctx: &Ctx, rep: &mut Report) {
 /// Over the free-module group the derivation inputs and the table construction are directly observable
 fn fm_leg(ctx: &Ctx, rep: &mut Report) {
     let mut id = 1000usize;
-    for (bi, &n) in BITS.iter().enumerate() {
-        for (ci, &cap) in caps(ctx.thorough()).iter().enumerate() {
+    {
+        for (n, cap, ext) in configs(ctx.thorough()) {
             id += 1;
             if !ctx.mine(id) {
                 continue;
             }
-            let ext = 1 + (bi + ci) % 6;
             let d = json!({"bits": n, "capacity": cap, "ext": ext, "group": "FmPoint"});
+            let mut rng = ctx.rng("c11-fm", id as u64);
             let pc = <FmPoint as Gx>::pedersen(ext);
             fm::arm();
             let prm = RangeParameters::init(n, cap, pc).expect("params");
@@ -231,6 +313,11 @@ fn fm_leg(ctx: &Ctx, rep: &mut Report) {
             }
             if !ok_assign {
                 rep.violation("C11 generator-assignment", "generator (party, index) is not the hash of the block the documentation assigns to it", rp(ctx, id, "fm", d.clone()));
+            }
+            if gv.len() == n * cap && hv.len() == n * cap {
+                if let Some(msg) = iter_access(&prm, &gv, &hv, &mut rng, rep) {
+                    rep.violation("C11 iterator-access", &msg, rp(ctx, id, "fm", d.clone()));
+                }
             }
             // the table is built from the interleaving G_0, H_0, G_1, H_1, ...
             rep.count("table_constructions_observed", log.precomp_new.len() as u64);
